@@ -965,7 +965,9 @@ class Interp:
             raise PyRaise(AttributeError(f"module '{o.name}' has no attribute '{name}'"))
         if isinstance(o, PFunc):
             if name in ("__name__", "__qualname__"):
-                return o.name
+                return getattr(o, "wrapped_name", None) or o.name  # (functools.wraps copies the name of the wrapped function)
+            if name == "__wrapped__" and getattr(o, "wrapped", None) is not None:
+                return o.wrapped
             if name == "cache_clear":
                 return lambda: None
             raise PyRaise(AttributeError(name))
@@ -1460,7 +1462,13 @@ class Interp:
                 f.is_contextmanager = True
             elif "lru_cache" in ds:
                 f.memo = {}  # memoised on concrete hashable arguments (object identity of the result matters: classes); never evicted
-            elif ds in ("abc.abstractmethod", "abstractmethod") or ds.startswith("wraps(") or ds.startswith("functools.wraps("):
+            elif ds.startswith("wraps(") or ds.startswith("functools.wraps("):
+                w_ = self.eval(d.args[0], env, mod) if isinstance(d, ast.Call) and d.args else None
+                if isinstance(w_, PFunc):
+                    f.wrapped, f.wrapped_name = w_, getattr(w_, "wrapped_name", None) or w_.name
+                elif w_ is not None and hasattr(w_, "__name__"):
+                    f.wrapped, f.wrapped_name = w_, w_.__name__
+            elif ds in ("abc.abstractmethod", "abstractmethod"):
                 pass
             else:
                 dv = self.eval(d, env, mod)
